@@ -115,13 +115,14 @@ ENTRY = {'coq_dir': 'C18',
                  'kind 4 (refacc = acc, refpid = pid), kind 5/9 (refpid, reference encode_protobuf = to_protobuf_encoding), kind 10 '
                  '(transcribed RSA rule)'],
                 ['"Parsing from bytes, base58 text or a multiaddress accepts exactly what the reference accepts"',
-                 'C18_admits_reference, C18_infallible_conversion, C18_parsed_p2p_has_id, C18_parse_sites; C18_strict_parser (why no '
-                 'canonicalising repair)',
+                 'C18_admits_reference, C18_infallible_conversion, C18_parsed_p2p_has_id, C18_parse_sites, C18_text_error_variant (which '
+                 'error); C18_strict_parser (why no canonicalising repair)',
                  'kinds 1, 2, 3, 6, 11: refacc / refsame flags on every case, entry-point agreement flags'],
                 ['"and never panics"',
                  'totality of the model functions; C18_parsed_valid / C18_parsed_text_valid / C18_parsed_component_valid / '
-                 'C18_multiaddr_id_valid / C18_derived_roundtrip / C18_random_valid + C18_infallible_conversion (the expect() in '
-                 'From<PeerId> for multiaddr::PeerId cannot fire), C18_is_public_key_total, C18_address_record_new',
+                 'C18_addr_text_valid / C18_multiaddr_id_valid / C18_derived_valid / C18_derived_roundtrip / C18_random_valid + '
+                 'C18_infallible_conversion (the expect() in From<PeerId> for multiaddr::PeerId cannot fire), C18_is_public_key_total, '
+                 'C18_address_record_new',
                  'every case runs under catch_unwind (PANIC mark in the trace); accepted_tail performs the infallible conversion on every '
                  'accepted id; kind 11 drives AddressRecord::new'],
                 ['"converting any accepted peer id to bytes, text, a multiaddress component or its serialized form and back yields the '
